@@ -15,9 +15,9 @@ import (
 // replay does not depend on scheduling noise; the returns-in-time assertion allows the same slack.
 
 const (
-	c09Timeout = 400 * time.Millisecond
-	c09Slack   = 150 * time.Millisecond
-	c09Margin  = 100 * time.Millisecond
+	c09Timeout = 600 * time.Millisecond
+	c09Slack   = 400 * time.Millisecond
+	c09Margin  = 150 * time.Millisecond
 )
 
 type c09Env struct {
